@@ -33,7 +33,7 @@ CLAIMS = {
             "TLC model checking of Chain.tla (ghost variables sound/must vs the path walk, full attribute product, negative config) + replay of TLC-judged chains into x509_certs_verify(_tlcp)",
             "TLC covers every chain of leaf [+TLCP encryption leaf] + intermediates + anchor over the attribute product while visiting a few hundred abstract states, proving accept => sound and reject => ~must for the "
             "modelled walk and that the incremental ghosts equal the whole-chain property functions; as-built chains with every one- and two-attribute change plus simulated walks are concretised with the reference "
-            "X.509 writer and the code's verdict is compared with the property value TLC computed.",
+            "X.509 writer and the code's verdict is compared with the property value TLC computed. Unsound chains are also built with the other criticality of the known extensions, and with the root sent along (genuine / a look-alike of the same name).",
             "Trusted: TLC, reference DER/X.509 writer and SM2 signer, interposed clock. Attribute classes stand for concrete representatives.",
             "4/C07"),
     "C08": ("model_checking",
@@ -52,7 +52,7 @@ CLAIMS = {
     "C02": ("model_checking",
             "TLC evaluation of Sm2Judge.tla on encryption traces, the malformed-ciphertext space and ECDH cases (strict DER via Der.tla, curve membership in BigNat, KDF / C2 / C3 from Crypto.tla)",
             "Every ciphertext the six encryption interfaces produce (lengths 1..255) is judged by TLC (canonical DER, C1 on the curve, C2 and C3 recomputed from the shared point) and decrypted back; reference-made ciphertexts, "
-            "17 encoding forms, C1 classes, C3/C2 modifications and bit flips are decided by the executable DecryptExpected definition; ECDH results must equal the reference [d]Q both ways and refuse invalid peers.",
+            "17 encoding forms, C1 classes, C3/C2 modifications and bit flips are decided by the executable DecryptExpected definition; ECDH results must equal the reference [d]Q both ways and refuse invalid peers. C1 = [k]G is checked against the nonce actually drawn from the interposed entropy source, the first nonce is forced to one with an all-zero key stream, the pre-computed nonce table is driven slot by slot, compressed peer shares and the all-zero C1 with a consistent forgery are covered.",
             "Trusted: TLC, SM3 table, reference scalar multiplication for the shared point.",
             "4/C02"),
     "C03": ("model_checking",
@@ -96,13 +96,13 @@ CLAIMS = {
     "C15": ("model_checking",
             "TLC model checking of X509Obj.tla + trace validation of issue / parse / verify / lookup events against X509Trace.tla",
             "Objects are issued through the library over classes of admissible field values, parsed back and compared field by field by TLC; verification must succeed exactly under the issuing key and signer ID on the untouched object "
-            "(other key, other IDs and single-bit modifications must fail); CRL lookup must report a serial exactly when it is listed.",
+            "(other key, other IDs and single-bit modifications must fail); CRL lookup must report a serial exactly when it is listed. The parsed-back Extensions are walked by TLC (count, order, OID, criticality, value) and sizes are swept across the DER length-form switches.",
             "Trusted: TLC, the driver's record of the supplied fields. Field values are seeded class representatives.",
             "4/C15"),
     "C16": ("model_checking",
             "TLC model checking of Cms.tla + trace validation of cms_* calls against CmsTrace.tla",
             "Messages are produced by the top-level cms_* interfaces for 1..4 signers x 1..4 recipients x content classes and two content types; every recipient opens with a key object built from the raw scalar, ECPrivateKey DER and encrypted PKCS#8 PEM; "
-            "outsiders, mismatched keys, zero SignerInfos (message rewritten with an independent DER writer), a SignerInfo made with a foreign key and located bit flips of content / signature / encrypted key / IV / ciphertext must fail.",
+            "outsiders, mismatched keys, zero SignerInfos (message rewritten with an independent DER writer), a SignerInfo made with a foreign key and located bit flips of content / signature / encrypted key / IV / ciphertext must fail. Signer identifiers (issuerAndSerialNumber) are tamper regions too, recipient sets put the right RecipientInfo behind look-alikes, and an encryptedKey holding more than a content-encryption key must be refused without overflow.",
             "Trusted: TLC, ref/derw.py region location, ref/sm4ref.py (classifies which CBC changes keep the padding intact: those are the recorded known finding for unauthenticated Enveloped/EncryptedData).",
             "4/C16"),
     "C17": ("exploration",
@@ -115,20 +115,20 @@ CLAIMS = {
     "C18": ("fault_enumeration",
             "TLC model checking of Entropy.tla + link-time getentropy interposition with a failure injected at every draw index, validated against EntropyTrace.tla",
             "Every randomised API operation and the three handshakes in both roles are run clean, on an equal and a different entropy stream, repeated within one stream, and with the source failing at each draw index; "
-            "TLC checks on the recorded events that positions are consumed once and in order, that a failed draw means failure and nothing but an alert emitted, that success consumed entropy, and that ephemeral values are equal exactly for equal streams and never repeat.",
+            "TLC checks on the recorded events that positions are consumed once and in order, that a failed draw means failure and nothing but an alert emitted, that success consumed entropy, and that ephemeral values are equal exactly for equal streams and never repeat. Runs of rejected (out-of-range) draws precede the good ones, and the secret scalar behind every successful SM2 key generation / signature / encryption must be one of the in-range values drawn.",
             "Trusted: TLC, the interposed getentropy/send in the harness. An encrypted TLS 1.3 alert is recognised by its length.",
             "4/C18"),
     "C19": ("exploration",
             "Leak.tla judge over Op events: fd 1/2 captured per operation and searched for every secret the harness can name",
             "API operations that handle secrets (success and failure paths) and 48 handshake scenarios (honest, defective credentials, tampering, failing entropy) are run with stdout/stderr captured; private scalars, "
-            "all entropy draws, master secret, key block, IVs, passwords and plaintext are searched raw, hex, base64, word-swapped and by 16-byte windows; only an explicit print may show a secret.",
+            "all entropy draws, master secret, key block, IVs, passwords and plaintext are searched raw, hex, base64, word-swapped and by 16-byte windows; only an explicit print may show a secret. Failure paths of the key readers (every single-byte change, mismatching public key), of loading TLS credentials from files, and protected post-handshake records of other content types sent by an independent peer are included.",
             "Only secrets the harness can name are searched; default build configuration.",
             "4/C19"),
     "C20": ("model_checking",
             "TLC model checking of Threads.tla (all interleavings of call entry / return, liveness under fairness; the hidden-state variant must violate) + TLC-enumerated call-level schedules replayed into the real library + "
             "trace validation against ThreadsTrace.tla + ThreadSanitizer on free-running runs",
             "A 12-kind mixed workload (hash, ciphers, SM2/SM9, DER/X.509/CMS, record protection, complete TLS 1.2/1.3 handshakes) runs per thread with a per-thread entropy stream: sequentially (definition of the results), free-running "
-            "with 2..16 threads under ASan and TSan, and under every call-level schedule of 3x2 and 2x4 enumerated by TLC (thorough: 2000 of 4x3); every operation must return its sequential digest, really succeed, in program order.",
+            "with 2..16 threads under ASan and TSan, and under every call-level schedule of 3x2 and 2x4 enumerated by TLC (thorough: 2000 of 4x3); every operation must return its sequential digest, really succeed, in program order. The same runs are repeated over streaming objects (one multi-call object per thread, operation k = its k-th call; all threads on one kind with different keys), so state hidden behind contexts shows under the schedules.",
             "Trusted: TLC, ThreadSanitizer/AddressSanitizer, the sequential run as the definition of results. Free-running runs sample the OS scheduler.",
             "4/C20"),
 }
